@@ -25,7 +25,7 @@ from ufl.algorithms import (
     formsplitter,
     replace,  # noqa: F401
 )
-from ufl.argument import Argument
+from ufl.argument import Argument, BaseArgument
 from ufl.cell import Cell
 from ufl.coefficient import Coefficient, Cofunction
 from ufl.constantvalue import as_ufl, is_true_ufl_scalar
@@ -441,9 +441,12 @@ def derivative(form, coefficient, argument=None, coefficient_derivatives=None):
             elif isinstance(coefficient, BaseForm) and not isinstance(
                 coefficient, BaseFormOperator
             ):
-                # Make the `ZeroBaseForm` arguments
-                arguments = form.arguments() + coefficient.arguments()
-                return ZeroBaseForm(arguments)
+                # Make the `ZeroBaseForm` arguments: those of the form
+                # and the direction(s) of differentiation
+                return ZeroBaseForm(
+                    form.arguments()
+                    + tuple(a for a in arguments.ufl_operands if isinstance(a, BaseArgument))
+                )
             else:
                 fd = CoefficientDerivative(
                     itg.integrand(), coefficients, arguments, coefficient_derivatives
